@@ -49,6 +49,10 @@ type Config struct {
 	// LateWrite models TCP: after the peer has closed, local writes are still
 	// accepted (and the bytes vanish) instead of failing at once.
 	LateWrite bool `json:"late_write"`
+	// CloseErr models TLS: closing a connection the peer has already reset
+	// or closed fails to send the close_notify alert; Close does close the
+	// connection but reports an error (percent chance).
+	CloseErr int `json:"close_err"`
 }
 
 // FaultAt plans a fault at the Op-th I/O operation (0 based) of connection
@@ -621,6 +625,16 @@ func (c *Conn) Close() error {
 	c.closed = true
 	c.mu.Unlock()
 	zzsim.Event("close pair=%d side=%d", c.pair, c.side)
+	if c.nw.cfg.CloseErr > 0 {
+		c.wr.mu.Lock()
+		gone := c.wr.reset || c.wr.rclosed
+		c.wr.mu.Unlock()
+		if gone && zzsim.Chance(c.nw.cfg.CloseErr, 100) {
+			c.nw.fire("close-reports-error")
+			c.closeGraceful()
+			return ErrPipe
+		}
+	}
 	if c.nw.cfg.Abortive > 0 && zzsim.Chance(c.nw.cfg.Abortive, 100) {
 		c.nw.fire("close-abortive")
 		c.abort()
